@@ -630,7 +630,9 @@ func c16DetImports(r *vp.InstResult) {
 			Syntax:  proto.String("proto3"),
 			Options: &descriptorpb.FileOptions{GoPackage: proto.String("genmod/" + pkg)},
 		}
-		for _, m := range []string{"Req", "Resp"} {
+		// distinct message names per package: the generated future / correctable types are named after the
+		// result type without its package
+		for _, m := range []string{"Req" + pkg[len(pkg)-1:], "Resp" + pkg[len(pkg)-1:]} {
 			msgFile.MessageType = append(msgFile.MessageType, &descriptorpb.DescriptorProto{
 				Name: proto.String(m),
 				Field: []*descriptorpb.FieldDescriptorProto{{
@@ -647,8 +649,9 @@ func c16DetImports(r *vp.InstResult) {
 		spec := gen.ServiceSpec{Pkg: fmt.Sprintf("detimp%d", shift), Service: "Svc", Messages: []string{"Local"}}
 		for i, m := range legal {
 			m.Name = fmt.Sprintf("M%d", i)
-			m.In = "." + pkgs[(i+shift)%3] + ".Req"
-			m.Out = "." + pkgs[(i/2+shift+1)%3] + ".Resp"
+			pin, pout := pkgs[(i+shift)%3], pkgs[(i/2+shift+1)%3]
+			m.In = "." + pin + ".Req" + pin[len(pin)-1:]
+			m.Out = "." + pout + ".Resp" + pout[len(pout)-1:]
 			if i%5 == 4 {
 				m.Out = ".google.protobuf.Empty"
 			}
